@@ -6,6 +6,7 @@ CONSTANTS
   Tofu = {"off", "first", "match", "changed", "unreadable"}
   DevSendInConnectionMade = FALSE
   DevLookupErrorEscapes = FALSE
+  DevNonSuccessAtClose = FALSE
   DevUnreadableSkipsCheck = FALSE
 INVARIANT NothingBeforeVerify
 INVARIANT ChangedGetsNothing
